@@ -71,11 +71,11 @@ type ipModel struct {
 	// an automatic temporary ban was written over a MANUAL permanent one: whether the permanent one survives is
 	// deliberately unspecified, so "not banned" is never required until the next manual operation
 	manualPermUnder bool
-	hadSuccess     bool
-	preSuccess     []ival // failures cleared by RecordSuccess (only for root-cause classification)
-	crossed        bool   // a ban was written by the threshold rule at least once
-	queriedExpired bool   // a query certainly after an expiry was evaluated
-	notes          map[string]int
+	hadSuccess      bool
+	preSuccess      []ival // failures cleared by RecordSuccess (only for root-cause classification)
+	crossed         bool   // a ban was written by the threshold rule at least once
+	queriedExpired  bool   // a query certainly after an expiry was evaluated
+	notes           map[string]int
 }
 
 func newIPModel(c bfCfg, notes map[string]int) *ipModel { return &ipModel{cfg: c, notes: notes} }
@@ -314,7 +314,7 @@ type ipmModel struct {
 	// keys (queried address strings) for which an IsAllowed query has observed an expired blacklist record
 	// since the key was last written
 	expiredSeen map[string]bool
-	gen         int          // reloads so far: every entry lives in the storage, so a reload must not change any answer
+	gen         int // reloads so far: every entry lives in the storage, so a reload must not change any answer
 	whiteGen    map[string]int
 }
 
